@@ -357,9 +357,13 @@ int sx127x_fsk_ook_read_payload_batch(bool read_batch, sx127x *device) {
   }
 
   uint8_t batch_size = HALF_MAX_FIFO_THRESHOLD - 1;
-  if (read_batch && device->fsk_ook_packet_sent_received + batch_size < device->expected_packet_length) {
-    ERROR_CHECK(sx127x_shadow_spi_read_buffer(REGFIFO, device->packet + device->fsk_ook_packet_sent_received, batch_size, &device->spi_device));
-    device->fsk_ook_packet_sent_received += batch_size;
+  if (read_batch) {
+    // FIFO level: only full batches. the tail of the packet stays in the FIFO until payload ready is handled,
+    // because the chip clears PayloadReady as soon as the FIFO is empty and the packet would never be delivered
+    if (device->fsk_ook_packet_sent_received + batch_size < device->expected_packet_length) {
+      ERROR_CHECK(sx127x_shadow_spi_read_buffer(REGFIFO, device->packet + device->fsk_ook_packet_sent_received, batch_size, &device->spi_device));
+      device->fsk_ook_packet_sent_received += batch_size;
+    }
   } else {
     // shortcut here for packets less than max fifo size
     if (device->fsk_ook_packet_sent_received == 0 && device->expected_packet_length <= remaining_fifo) {
